@@ -47,8 +47,9 @@ type UISpec struct {
 type Plan struct {
 	Machine     string `json:"machine"` // recipient | identity | identity-as-recipient
 	Name        string `json:"name"`
-	NStanzas    int    `json:"n_stanzas"`       // identity machine: stanzas handed to Unwrap
-	Shape       int    `json:"shape,omitempty"` // identity machine: two bits per stanza choose its arguments: 0 two, 1 none at all, 2 one, 3 five
+	NStanzas    int    `json:"n_stanzas"`            // identity machine: stanzas handed to Unwrap
+	PlainWrap   bool   `json:"plain_wrap,omitempty"` // recipient machines: enter through Wrap (the plain age.Recipient method) instead of WrapWithLabels
+	Shape       int    `json:"shape,omitempty"`      // identity machine: two bits per stanza choose its arguments: 0 two, 1 none at all, 2 one, 3 five
 	Msgs        []PMsg `json:"msgs"`
 	DeathAt     int    `json:"death_at"`  // -1: peer lives; k: dies before delivering message k (k == len(msgs): after all)
 	DeathCut    int    `json:"death_cut"` // >0: delivers this many bytes of message death_at, then dies
@@ -77,7 +78,7 @@ func (Engine) Meta() core.Meta {
 		Real:        []string{"filippo.io/age/plugin client (Recipient.WrapWithLabels, Identity.Unwrap, ClientUI.handle/readStanza)", "internal/format StanzaReader and Stanza.Marshal", "time.AfterFunc on the bubble's fake clock"},
 		Stub:        []string{"plugin process and its pipes (plugin.VerifTransport hook, build tag verif)", "ClientUI callbacks", "wall clock (testing/synctest bubble)"},
 		FaultKinds:  []string{"fault.death_at_start", "fault.death_between_messages", "fault.death_mid_message", "fault.stall", "fault.malformed_framing", "fault.bad_index", "fault.repeated_labels", "fault.duplicate_file_key", "fault.error_message", "fault.unknown_command", "fault.ui_callback_missing_or_failing"},
-		Probes:      []string{"probe.wait_timer_fired", "probe.success_recipient", "probe.success_identity", "probe.incorrect_identity", "probe.error_text_propagated", "probe.zero_stanzas", "probe.fragment_per_byte", "probe.fragment_per_line", "probe.lenient_tail", "probe.prompt_answered", "probe.confirm_answered", "probe.name_checked", "probe.inside_age_decrypt", "probe.coalesced_delivery", "probe.first_line_beyond_4096"},
+		Probes:      []string{"probe.wait_timer_fired", "probe.success_recipient", "probe.success_identity", "probe.incorrect_identity", "probe.error_text_propagated", "probe.zero_stanzas", "probe.fragment_per_byte", "probe.fragment_per_line", "probe.lenient_tail", "probe.prompt_answered", "probe.confirm_answered", "probe.name_checked", "probe.inside_age_decrypt", "probe.coalesced_delivery", "probe.first_line_beyond_4096", "probe.entered_through_plain_wrap"},
 	}
 }
 
@@ -213,6 +214,7 @@ func (Engine) Generate(r *core.RNG, tier string, idx uint64) interface{} {
 		p.NStanzas = r.Range(2, 4)
 		p.Shape = r.Intn(256)
 	}
+	p.PlainWrap = r.Chance(1, 4)
 	p.UI = UISpec{Display: []string{"nil", "err", "ok"}[r.Intn(3)], Request: []string{"nil", "err", "val"}[r.Intn(3)],
 		Confirm: []string{"nil", "err", "yes", "no"}[r.Intn(4)], WaitTimer: r.Bool()}
 	mach := p.Machine
@@ -770,14 +772,24 @@ func (en Engine) converse(p0 *Plan, c *core.Ctx) (verdict *core.Verdict) {
 				gotErr = fmt.Errorf("harness: NewRecipient: %v", err)
 				return
 			}
-			gotStanzas, gotLabels, gotErr = r.WrapWithLabels(fileKey)
+			if p.PlainWrap {
+				gotStanzas, gotErr = r.Wrap(fileKey)
+				c.Stats.Inc("probe.entered_through_plain_wrap")
+			} else {
+				gotStanzas, gotLabels, gotErr = r.WrapWithLabels(fileKey)
+			}
 		case "identity-as-recipient":
 			i, err := plugin.NewIdentity(idEnc, ui)
 			if err != nil {
 				gotErr = fmt.Errorf("harness: NewIdentity: %v", err)
 				return
 			}
-			gotStanzas, gotLabels, gotErr = i.Recipient().WrapWithLabels(fileKey)
+			if p.PlainWrap {
+				gotStanzas, gotErr = i.Recipient().Wrap(fileKey)
+				c.Stats.Inc("probe.entered_through_plain_wrap")
+			} else {
+				gotStanzas, gotLabels, gotErr = i.Recipient().WrapWithLabels(fileKey)
+			}
 		case "identity-in-decrypt":
 			// the plugin identity is the first of two identities handed to age.Decrypt; the file is
 			// addressed to the second (a native X25519 key) and its file key is the one the script sends
@@ -996,7 +1008,7 @@ func (en Engine) converse(p0 *Plan, c *core.Ctx) (verdict *core.Verdict) {
 				return core.Fail("C16.result", "stanza %d returned by Wrap differs from what the plugin sent", i)
 			}
 		}
-		if strings.Join(gotLabels, ",") != strings.Join(exp.labels, ",") {
+		if !p.PlainWrap && strings.Join(gotLabels, ",") != strings.Join(exp.labels, ",") {
 			return core.Fail("C16.labels", "labels returned %v, plugin sent %v", gotLabels, exp.labels)
 		}
 		c.Stats.Inc("probe.success_recipient")
